@@ -640,7 +640,7 @@ func init() {
 	register(ruleKleene)
 	addProp(&PropSpec{
 		ID:          "C11",
-		Rules:       []string{"R-KLEENE", "R-PAIR-P", "R-STATE", "R-STATUSFLOW", "R-EARLYEXIT"},
+		Rules:       []string{"R-KLEENE", "R-PAIR-P", "R-STATE", "R-STATUSFLOW", "R-EARLYEXIT", "R-FOUNDKEPT"},
 		Explanation: "The connectives are finite decision procedures over {false,true,unknown}×{error,nil}; their complete tables are extracted from the code by enumerating every acyclic path of the two boolean executors (branch conditions become guards over finite-domain atoms; returned operands become terms) and compared cell by cell with Kleene logic, including which operand is evaluated and in which order. Operand coherence (error ⇒ unknown) is R-PAIR-P.",
 		Decided:     []string{"R-KLEENE: complete tables of &&, ||, !, is unknown, exists (lax and strict), short-circuit arms and error columns", "R-PAIR-P: operands return coherent (outcome, error) pairs"},
 		NotDecided:  []string{"that operand evaluation itself yields the right outcome", "the error column of `is unknown` for non-cancellation errors (known finding under C08)"},
